@@ -70,13 +70,34 @@ def run(ctx: Ctx) -> None:
         "(so penalty - 2*max >= 1), upper_bound = n*days*penalty with days "
         "= (n-1)*rounds, and the instance's own bound uses the same "
         "penalty expression; evaluate() binds (plan, instance, penalty) to "
-        "the kernel. Not decided: validity of the upper bound, strict "
-        "increase under replacing a game by a bye beyond the penalty "
-        "margin, the optimum table.")
+        "the kernel. D8.3: from these premises every plan length lies "
+        "within [0, upper_bound()] (lemma L8, spelled out in the "
+        "obligation); an upper bound above the documented one is accepted, "
+        "one below the length of the plan without games is refuted by "
+        "evaluating the bound polynomial. Not decided: strict increase "
+        "under replacing a game by a bye beyond the penalty margin, the "
+        "optimum table.")
     ctx.rule("D8.1", "per-day transition == documented walk; start/return")
     ctx.rule("D8.2", "penalty and bound expressions")
     _kernel(ctx)
     _bounds(ctx)
+    # ---- D8.3: the declared bounds are valid (lemma L8)
+    ctx.rule("D8.3", "every plan length lies within the declared bounds "
+             "(lemma L8 from the premises D8.1, D8.2)")
+    prem = [o for o in ctx.obligations if o.rule == "D8.1" or o.construct in (
+        "bye penalty margin", "upper bound expression", "lower bound")]
+    bad = [o for o in prem if not o.ok]
+    ctx.ob("D8.3", None, None, not bad and len(prem) >= 6,
+           "L8: by D8.1 a team's length is (#byes)*penalty + the sum of at "
+           "most k+1 distances for k days with a game (k moves and the "
+           "return leg), each distance is between 0 and the largest entry "
+           "m, and by D8.2 penalty >= 2m+1: for k >= 1, (k+1)*m <= 2k*m < "
+           "k*penalty, so the length of a team is within [0, days*penalty] "
+           "and the plan length within [0, n*days*penalty] <= upper_bound()"
+           if not bad and len(prem) >= 6 else
+           "premise not established: " + "; ".join(
+               f"{o.rule} {o.construct}" for o in bad[:4]),
+           function="GamePlanLength", construct="declared bounds valid")
     ctx.assumptions += [
         "the distance matrix has a zero diagonal (TSP instance "
         "constructor), so the `already there` shortcut is optional",
@@ -273,6 +294,58 @@ def _kernel(ctx: Ctx) -> None:
            construct="returned value", nontrivial=False)
 
 
+def _ub_at(p: Poly, val: dict[str, int]) -> Any:
+    from fractions import Fraction
+    tot = Fraction(0)
+    for mono, c in p.terms.items():
+        t = Fraction(c)
+        for a, e in mono:
+            if a[0] == "var" and str(a[1]) in val:
+                t *= Fraction(val[str(a[1])]) ** e
+            else:
+                return None
+        tot += t
+    return tot
+
+
+def _ub_verdict(got: Any, want: Poly) -> tuple[bool, str]:
+    """The plan without any game has the length n * days * bye_penalty
+    (every team pays the penalty on every day and never travels), so the
+    declared bound must be at least that for every n >= 2, rounds >= 1,
+    penalty >= 1; it is accepted when it equals the documented expression
+    or exceeds it coefficient-wise after writing n = 2 + a, rounds = 1 + b,
+    penalty = 1 + c with a, b, c >= 0."""
+    if not isinstance(got, Poly):
+        return False, "cannot normalise the upper bound: not recognised"
+    if got == want:
+        return True, "= documented n * (n-1)*rounds * bye_penalty"
+    names = ("self.instance.n_cities", "self.instance.rounds",
+             "self.bye_penalty")
+    for n_ in (2, 3, 4, 7):
+        for r_ in (1, 2, 3):
+            for p_ in (1, 7, 201):
+                val = dict(zip(names, (n_, r_, p_)))
+                u = _ub_at(got, val)
+                if u is None:
+                    return False, ("cannot normalise the upper bound "
+                                   "(unknown fields): not recognised")
+                v = n_ * (n_ - 1) * r_ * p_
+                if u < v:
+                    return False, (
+                        f"for {n_} teams, {r_} round(s) and a bye penalty "
+                        f"of {p_} the plan without any game has the length "
+                        f"{v}, upper_bound() gives {u}")
+    shift = {Poly.var(k).as_atom(): Poly.const(lo) + Poly.var(k)
+             for k, lo in zip(names, (2, 1, 1))}
+    d = (got - want).subst(shift)
+    if all(c >= 0 for c in d.terms.values()):
+        return True, (">= documented n * (n-1)*rounds * bye_penalty for "
+                      "all n >= 2, rounds >= 1 (coefficients after shifting "
+                      "to the lowest values are non-negative)")
+    return False, ("not recognised as at least n * (n-1)*rounds * "
+                   "bye_penalty: cannot decide")
+
+
 def _bounds(ctx: Ctx) -> None:
     repo = ctx.repo
     cls = repo.cls(MOD, "GamePlanLength")
@@ -322,10 +395,10 @@ def _bounds(ctx: Ctx) -> None:
     n = Poly.var("self.instance.n_cities")
     r = Poly.var("self.instance.rounds")
     want = n * (n - Poly.const(1)) * r * Poly.var("self.bye_penalty")
-    ctx.ob("D8.2", ub, ub.node, got == want,
+    okub, whyub = _ub_verdict(got, want)
+    ctx.ob("D8.2", ub, ub.node, okub,
            f"upper_bound() = {show(got) if isinstance(got, Poly) else got}"
-           "; documented n * (n-1)*rounds * bye_penalty",
-           construct="upper bound expression")
+           f"; {whyub}", construct="upper bound expression")
     lb = cls.methods["lower_bound"]
     okl = any(isinstance(x, ast.Return) and repo.const(
         lb.module, x.value) == 0 for x in ast.walk(lb.node))
